@@ -8,7 +8,10 @@ NAME = 'basic'
 def c07_cases(ctx, bound):
     from qecsim.models.basic import FiveQubitCode, SteaneCode
     for op, cls in (('five', FiveQubitCode), ('steane', SteaneCode)):
-        c = cls()
+        pub = common.published(ctx, 'basic ' + op, (), cls, lattice=False)
+        if not pub.ok:
+            continue
+        c = pub.code
         n, k, d = c.n_k_d
         ctx.case('basic ' + op, '{} {} {} {} {} {}'.format(mat(c.stabilizers), mat(c.logical_xs), mat(c.logical_zs),
                                                           n, k, 'N' if d is None else d), meta={'tag': op})
